@@ -13,7 +13,7 @@ Import ListNotations.
 Ltac beh := cbn [repaired b_df_checks b_df_cols_check b_mtag_pos_first b_array_checks_first b_meta_lookup_first
                  b_link_lookup_first b_ext_check_first b_values_check_first b_prop_type_check b_prop_values_uniform
                  b_esrc_by_name b_uuid_name_links b_replace_all_atomic b_feature_null_guard b_delsource_by_id b_valid_reachable b_setdata_type_first b_append_type_first
-                 b_df_colname_check b_array_rank_max andb negb].
+                 b_df_colname_check b_array_rank_max b_create_typed_first andb negb].
 
 Section Shape.
 Variable ids : nat -> string.
@@ -341,6 +341,18 @@ Proof.
   - apply check_name_none; auto.
 Qed.
 
+Lemma create_array_shape s pk p name type dt shp :
+  Inv s -> fresh s -> (forall q, p = Some q -> alive s q = true) -> shape s (create_array ids repaired s pk p name type dt shp).
+Proof.
+  intros H F Hpar. unfold create_array. beh.
+  destruct (check_name name) eqn:CN; [apply shape_fail|]. destruct (is_empty_str type); [apply shape_fail|].
+  destruct (lookup_named ids pk _ name) eqn:L; [apply shape_fail|].
+  destruct (negb (h5_storable dt)); [apply shape_fail|].
+  destruct (List.length _ =? 0); [apply shape_fail|].
+  destruct (32 <? List.length _); [apply shape_fail|].
+  apply create_backend_shape; auto; [intros _; eapply named_side; eauto | apply links_alive_none].
+Qed.
+
 Lemma do_create_shape s pk p k name type x :
   Inv s -> fresh s -> (forall q, p = Some q -> alive s q = true) -> shape s (do_create ids repaired s pk p k name type x).
 Proof.
@@ -369,12 +381,11 @@ Proof.
     apply negb_false_iff in AS. rewrite AS.
     apply create_backend_shape; auto; [intros _; eapply named_side; eauto | apply links_alive_none].
   - (* array *)
-    destruct (check_name name) eqn:CN; [apply shape_fail|]. destruct (is_empty_str type); [apply shape_fail|].
-    destruct (lookup_named ids pk _ name) eqn:L; [apply shape_fail|].
-    destruct (negb (h5_storable dt)); [apply shape_fail|].
-    destruct (List.length _ =? 0); [apply shape_fail|].
-    destruct (32 <? List.length _); [apply shape_fail|].
-    apply create_backend_shape; auto; [intros _; eapply named_side; eauto | apply links_alive_none].
+    apply create_array_shape; auto.
+  - (* array, from data (header template) *)
+    destruct (dtype_writable mem _); cbn [negb]; [|apply shape_fail].
+    pose proof (create_array_shape s pk p name type (if dtype_eqb dt DNothing then mem else dt) [n] H F Hpar) as S.
+    unfold shape in *. destruct (create_array ids repaired s pk p name type _ [n]) as [s' r]. cbn [fst snd] in *. destruct r; auto.
   - (* frame *)
     destruct (check_name name) eqn:CN; [apply shape_fail|]. destruct (is_empty_str type); [apply shape_fail|].
     destruct (lookup_named ids pk _ name) eqn:L; [apply shape_fail|].
@@ -683,6 +694,8 @@ Proof.
     destruct (e_kind e); try apply shape_fail. destruct (_ <=? axis); [apply shape_fail|].
     destruct (negb (_ =? _)); [apply shape_fail|]. destruct (negb (same_but _ _ _ _)); [apply shape_fail|].
     destruct (dtype_writable mem _); cbn [negb]; [|apply shape_fail]. apply TUpd, good_with_pay; auto.
+  - (* Feature::linkType *)
+    destruct (e_kind e); try apply shape_fail. apply TUpd, good_with_pay; auto.
   - (* a write outside the model *)
     destruct (existsb _ ks); [apply shape_ret_same|apply shape_fail].
 Qed.
